@@ -12,6 +12,8 @@ class _JumpMarker:
 class CodeGen:
     def __init__(self):
         self._code = []
+        self._routine_start = None
+        self._out_of_line = 0
 
     @property
     def program(self):
@@ -19,10 +21,15 @@ class CodeGen:
 
     @property
     def current_offset(self) -> int:
-        return len(self._code)
+        # Offsets are used only to calculate relative jumps. The loader moves
+        # every completed routine definition out of line, so a jump that spans
+        # one must not count the routine's instructions.
+        return len(self._code) - self._out_of_line
 
     def clear(self) -> None:
         self._code.clear()
+        self._routine_start = None
+        self._out_of_line = 0
 
     def push(self, operand) -> None:
         self.add_instruction(self._push_op(operand), operand)
@@ -32,7 +39,13 @@ class CodeGen:
 
     def add_instruction(self, op_code, param0=None, param1=None) -> Instruction:
         inst = Instruction(op_code, param0, param1)
+        if op_code is OpCode.ROUTINE:
+            self._routine_start = (len(self._code), param0)
         self._code.append(inst)
+        if (op_code is OpCode.END and self._routine_start is not None
+                and param0 == self._routine_start[1]):
+            self._out_of_line += len(self._code) - self._routine_start[0]
+            self._routine_start = None
         return inst
 
     def add_list(self, *inst_list) -> None:
